@@ -361,6 +361,26 @@ func genCase(rd rnd, tables []*g8blib.Table, class string, n, k int) *stmtCase {
 		sc.SQL = fmt.Sprintf("DELETE FROM p WHERE id IN (%s) ORDER BY id", in(ids))
 		sc.Post = []post{{fmt.Sprintf("SELECT COUNT(*) FROM p WHERE id IN (%s)", in(ids)), "0"},
 			{fmt.Sprintf("SELECT COUNT(*) FROM c WHERE pid IN (%s)", in(ids)), "0"}}
+	case "delete-multi:fk-restrict", "delete-multi":
+		// multi-table DELETE: one statement, two target tables, one editor per target; a failure (the RESTRICT
+		// child pins one p row) must undo what was already deleted from BOTH targets, whichever is listed first
+		sc.Target = "p"
+		rows := make([]string, len(ids))
+		for i, id := range ids {
+			rows[i] = fmt.Sprintf("(%d, %d, 'm%d')", id, rd.Intn(5), id)
+		}
+		prep = append(prep, "INSERT INTO src VALUES "+strings.Join(rows, ", "))
+		if k > 0 {
+			restrict[ids[k-1]] = true
+		}
+		targets := "src, p"
+		if rd.Intn(2) == 0 {
+			targets = "p, src"
+		}
+		sc.SQL = fmt.Sprintf("DELETE %s FROM src JOIN p ON src.id = p.id WHERE p.id IN (%s)", targets, in(ids))
+		sc.Post = []post{{fmt.Sprintf("SELECT COUNT(*) FROM p WHERE id IN (%s)", in(ids)), "0"},
+			{fmt.Sprintf("SELECT COUNT(*) FROM src WHERE id IN (%s)", in(ids)), "0"},
+			{fmt.Sprintf("SELECT COUNT(*) FROM c WHERE pid IN (%s)", in(ids)), "0"}}
 	case "delete-g":
 		sc.Target, sc.Triggered = "g", true
 		sc.SQL = "DELETE FROM g WHERE id <= " + fmt.Sprint(min(n, 5))
@@ -404,11 +424,11 @@ func sortInts(a []int) {
 	}
 }
 
-var injectClasses = []string{"insert-p", "insert-c", "replace-c", "insert-g", "update-g", "update-c", "update-p-key", "delete-p", "delete-g", "insert-select-p"}
+var injectClasses = []string{"insert-p", "insert-c", "replace-c", "insert-g", "update-g", "update-c", "update-p-key", "delete-p", "delete-g", "insert-select-p", "delete-multi"}
 
 var naturalClasses = []string{"insert-p:dup-pk", "insert-p:dup-unique", "insert-p:conversion", "insert-c:not-null", "insert-c:check", "insert-c:fk",
 	"replace-c:check", "insert-g:range", "insert-g:signal", "update-g:signal", "update-c:check", "update-p-key:dup-pk", "update-p:dup-unique",
-	"delete-p:fk-restrict", "insert-select-p:conversion", "insert-select-p:dup-unique"}
+	"delete-p:fk-restrict", "insert-select-p:conversion", "insert-select-p:dup-unique", "delete-multi:fk-restrict"}
 
 // build re-creates the database from the script.
 func build(sc *stmtCase) (*core.Eng, *core.Sess) {
